@@ -134,3 +134,76 @@ def random_bytes(rng, max_len=64):
         alphabet = b'abcxyzABC019 ;,=:"-_/.\r\n\t'
         return bytes(rng.choice(alphabet) for _ in range(size))
     return bytes([rng.randrange(256)]) * size
+
+
+# ---------------------------------------------------------------------------------------------------
+# deterministic "inflation" variants: one part of an accepted input blown up far beyond what any test uses
+# ---------------------------------------------------------------------------------------------------
+
+def _runs(data, predicate):
+    """[(start, stop)] of the maximal runs of bytes satisfying predicate"""
+    runs, start = [], None
+    for index, byte in enumerate(data):
+        if predicate(byte):
+            if start is None:
+                start = index
+        elif start is not None:
+            runs.append((start, index))
+            start = None
+    if start is not None:
+        runs.append((start, len(data)))
+    return runs
+
+
+def inflations(data, limit=80):
+    """Yield (name, variant): digit runs replaced by very long / extreme numbers, letter runs stretched past 63 and 255
+    characters, years and zone offsets pushed to the edge of the calendar, brackets and quotes nested thousands deep.
+    Text-shaped parts only (they exist inside binary messages too: host names, versions, ALPN names)."""
+    out = []
+    digits = _runs(data, lambda b: 0x30 <= b <= 0x39)
+    for start, stop in digits[:6]:
+        for name, replacement in (('digits-20', b'9' * 20), ('digits-400', b'9' * 400), ('digits-5000', b'9' * 5000),
+                                  ('digits-zero', b'0'), ('digits-leading-zeros', b'0' * 300 + data[start:stop])):
+            out.append((name, data[:start] + replacement + data[stop:]))
+        if stop - start == 4:
+            for year in (b'9999', b'0001', b'0000', b'1969', b'2038', b'10000'):
+                out.append(('year-' + year.decode(), data[:start] + year + data[stop:]))
+    letters = _runs(data, lambda b: 0x61 <= b <= 0x7a or 0x41 <= b <= 0x5a)
+    for start, stop in letters[:6]:
+        for count in (64, 256, 5000):
+            out.append(('letters-%d' % count, data[:start] + data[start:start + 1] * count + data[stop:]))
+    for offset in (b'+2359', b'-2359', b'+9999', b'-9999', b'+0000', b'-0001'):
+        for zone in (b'GMT', b'UTC', b'+0000', b'Z'):
+            position = data.find(zone)
+            if position >= 0:
+                out.append(('offset' + offset.decode(), data[:position] + offset + data[position + len(zone):]))
+                break
+    years = [(start, stop) for start, stop in digits if stop - start == 4]
+    if years:
+        start, stop = years[0]
+        for zone in (b'GMT', b'UTC', b'+0000', b'Z'):
+            position = data.find(zone, stop)
+            if position >= 0:
+                for year in (b'9999', b'0001'):
+                    for offset in (b'-2359', b'+2359', b'-0100', b'+0100'):
+                        out.append(('calendar-edge', data[:start] + year + data[stop:position] + offset + data[position + len(zone):]))
+                break
+    for opener, closer in ((b'[', b']'), (b'{"a":', b'}'), (b'(', b')'), (b'"', b'"'), (b'<', b'>')):
+        position = data.find(opener[:1])
+        if position >= 0:
+            out.append(('nest-' + opener[:1].decode(), data[:position] + opener * 3000 + closer * 3000 + data[position:]))
+    for position in [m for m in range(len(data)) if data[m:m + 1] in (b':', b'=')][:3]:
+        out.append(('nest-after-separator', data[:position + 1] + b'[' * 3000 + b']' * 3000 + data[position + 1:]))
+    return out[:limit] if limit else out
+
+
+def field_extremes(data, fields):
+    """Yield (name, variant) for numeric fields [(offset, width)]: all zero, all ones, sign boundary, with and without
+    the rest of the input behind the field."""
+    out = []
+    for offset, width in fields:
+        for name, value in (('ones', b'\xff' * width), ('zero', b'\x00' * width), ('max-signed', b'\x7f' + b'\xff' * (width - 1)),
+                            ('min-signed', b'\x80' + b'\x00' * (width - 1)), ('one', b'\x00' * (width - 1) + b'\x01')):
+            out.append(('field-%s' % name, data[:offset] + value + data[offset + width:]))
+        out.append(('field-ones-cut', data[:offset] + b'\xff' * width))
+    return out
